@@ -3,7 +3,9 @@
    numbers are line numbers of webvtt.go.  Proofs/VttChk.v shows that no site is reachable and that these functions
    agree with the pattern-matching transcription of Model/Vtt.v, on which the fidelity theorems are stated.
    Not re-transcribed (library contracts, see notes/C08.md): the sub-match slices of regexp.FindStringSubmatch /
-   FindAllStringSubmatchIndex (vtt_match_tag, split_ts) and map look-ups (never panic).  Definitions only. *)
+   FindAllStringSubmatchIndex (vtt_match_tag, split_ts) and map look-ups (never panic).  Definitions only.
+   Second audit, N6: x[:len(x)-1] is [slice_to_pred] (Panic on the empty slice; sites 364, 642), and the writer's
+   loops over l.Items, tags and the two tag stacks (L656-716) are index loops with one site per index expression. *)
 From Coq Require Import List ZArith NArith Bool Arith.
 From Astisub Require Import Kit.Base Kit.Str Kit.Html Kit.Scan Kit.GoMap Kit.Chk Model.Dur Model.Srt Model.Vtt.
 Import ListNotations.
@@ -102,16 +104,20 @@ Definition step_cue_c (s : vstate) (line : str) : res vstate :=
   end.
 
 (* len(sa.WebVTTStyles) == 0 || strings.HasSuffix(sa.WebVTTStyles[len(sa.WebVTTStyles)-1], "}") *)
+(* [index l (length l - 1) 167] panics on the empty list ([index [] 0]): sound with the nat predecessor *)
 Definition last_ends_brace_c (l : list str) : res bool :=
   if Nat.eqb (length l) 0 then Ok true
   else do x <- index l (length l - 1) 167; Ok (match rev x with 125 :: _ => true | _ => false end).
 
 (* ---- parseTextWebVTT: the end tag pops the stack behind "len(sa.WebVTTTags) > 0" ---- *)
+(* sa.WebVTTTags = sa.WebVTTTags[:len(sa.WebVTTTags)-1] is [slice_to_pred] (Kit/Chk.v): Panic 364 on the empty stack, as
+   Go's [:-1]; the sub-match accesses matches[2..4] (L368-377) sit behind len(matches) > 4 on the result of
+   FindStringSubmatch: library contract ([vtt_match_tag]), no site here *)
 Fixpoint vtt_toks_c (ts : list htok) (tags : list vtag) (voice : str) (acc : list vrun) : res (list vrun * str * list vtag) :=
   match ts with
   | [] => Ok (acc, voice, tags)
   | HEnd _ _ :: r =>
-    if Nat.ltb 0 (length tags) then do tags' <- slice_to tags (length tags - 1) 364; vtt_toks_c r tags' voice acc
+    if Nat.ltb 0 (length tags) then do tags' <- slice_to_pred tags 364; vtt_toks_c r tags' voice acc
     else vtt_toks_c r tags voice acc
   | HStart _ _ raw :: r =>
     let '(name, cls, annot) := vtt_match_tag raw in
@@ -219,35 +225,85 @@ Definition read_vtt_lines_c (ls : list str) (scan_err : bool) : res vdoc :=
 Definition read_vtt_c (data : str) : res vdoc := read_vtt_lines_c (lines data) false.
 
 (* ---- WriteToWebVTT: every optional part is dereferenced behind its nil test ---- *)
+(* webVTTTagsCommonPrefix (L713-716): for n < len(a) && n < len(b) && a[n].startTag() == b[n].startTag() { n++ }
+   an index loop with a[n], b[n] as checked accesses behind the two length tests; n grows at most len(a) times *)
+Fixpoint common_prefix_loop_c (fuel n : nat) (a b : list vtag) : res nat :=
+  match fuel with
+  | O => Ok n
+  | S fuel' =>
+    if Nat.ltb n (length a) && Nat.ltb n (length b) then
+      do x <- index a n 714;
+      do y <- index b n 714;
+      if str_eqb (tag_start x) (tag_start y) then common_prefix_loop_c fuel' (S n) a b else Ok n
+    else Ok n
+  end.
+Definition common_prefix_c (a b : list vtag) : res nat := common_prefix_loop_c (length a) 0 a b.
+(* for idx := alreadyOpened; idx < len(tags); idx++ { c = append(c, tags[idx].startTag()...) }     (L694-696) *)
+Fixpoint tags_open_c (fuel idx : nat) (tags : list vtag) : res str :=
+  match fuel with
+  | O => Ok []
+  | S fuel' =>
+    if Nat.ltb idx (length tags) then
+      do t <- index tags idx 695;
+      do rest <- tags_open_c fuel' (S idx) tags;
+      Ok (tag_start t ++ rest)
+    else Ok []
+  end.
+(* for idx := len(tags) - 1; idx >= leftOpened; idx-- { c = append(c, tags[idx].endTag()...) }     (L703-705)
+   the argument k is idx + 1 for the Go int idx, which runs from len(tags)-1 down and may be -1: k = 0 is idx = -1, and
+   -1 >= leftOpened is false because leftOpened >= 0 *)
+Fixpoint tags_close_c (k left : nat) (tags : list vtag) : res str :=
+  match k with
+  | O => Ok []
+  | S idx =>
+    if Nat.leb left idx then
+      do t <- index tags idx 704;
+      do rest <- tags_close_c idx left tags;
+      Ok (tag_end t ++ rest)
+    else Ok []
+  end.
 (* LineItem.webVTTBytes: li.InlineStyle (tags, colour), previous / next and their InlineStyle *)
 Definition vrun_bytes_c (prev next : option vrun) (r : vrun) : res str :=
   do color <- (if is_some (vr_color r) then do c <- deref (vr_color r) 674; Ok (css_color c) else Ok []);
   do tags <- (if is_some (vr_tags r) then deref (vr_tags r) 685 else Ok []);
   do opened <- (if is_some prev then
                   do p <- deref prev 688;
-                  if is_some (vr_tags p) then do pt <- deref (vr_tags p) 689; Ok (common_prefix pt tags) else Ok O
+                  if is_some (vr_tags p) then do pt <- deref (vr_tags p) 689; common_prefix_c pt tags else Ok O
                 else Ok O);
   do left <- (if is_some next then
                 do n <- deref next 691;
-                if is_some (vr_tags n) then do nt <- deref (vr_tags n) 692; Ok (common_prefix tags nt) else Ok O
+                if is_some (vr_tags n) then do nt <- deref (vr_tags n) 692; common_prefix_c tags nt else Ok O
               else Ok O);
+  do starts <- tags_open_c (length tags) opened tags;
+  do ends <- tags_close_c (length tags) left tags;
   Ok ((match color with [] => [] | _ => [60;99;46] ++ color ++ [62] end) ++
-      concat (map tag_start (skipn opened tags)) ++
+      starts ++
       (if (0 <? vr_time r)%Z then [60] ++ format_vtt (vr_time r) ++ [62] else []) ++
       escape_html (vr_text r) ++
-      concat (map tag_end (rev (skipn left tags))) ++
+      ends ++
       (match color with [] => [] | _ => [60;47;99;62] end)).
-Fixpoint vruns_bytes_c (prev : option vrun) (rs : list vrun) : res str :=
-  match rs with
-  | [] => Ok []
-  | r :: rest =>
-    do x <- vrun_bytes_c prev (match rest with n :: _ => Some n | [] => None end) r;
-    do y <- vruns_bytes_c (Some r) rest;
-    Ok (x ++ y)
+(* Line.webVTTBytes (L656-667):
+     for idx := 0; idx < len(l.Items); idx++ {
+       if idx > 0 { previous = &l.Items[idx-1] }                 (L659; idx-1 is the Go int predecessor, [idx_pred])
+       if idx < len(l.Items)-1 { next = &l.Items[idx+1] }        (L662; a comparison: for len = 0 it is false in Go (idx < -1)
+                                                                   and with the nat 0 - 1 = 0 (idx < 0) alike)
+       c = append(c, l.Items[idx].webVTTBytes(previous, next)...)   (L664) } *)
+Fixpoint vruns_loop_c (fuel idx : nat) (items : list vrun) : res str :=
+  match fuel with
+  | O => Ok []
+  | S fuel' =>
+    if Nat.ltb idx (length items) then
+      do prev <- (if Nat.ltb 0 idx then do k <- idx_pred idx 659; do p <- index items k 659; Ok (Some p) else Ok None);
+      do next <- (if Nat.ltb idx (length items - 1) then do n <- index items (S idx) 662; Ok (Some n) else Ok None);
+      do cur <- index items idx 664;
+      do x <- vrun_bytes_c prev next cur;
+      do y <- vruns_loop_c fuel' (S idx) items;
+      Ok (x ++ y)
+    else Ok []
   end.
 Definition vline_bytes_c (l : vline) : res str :=
-  do x <- vruns_bytes_c None (vl_runs l);
-  Ok ((match vl_voice l with [] => [] | v => [60;118;32] ++ v ++ [62] end) ++ x ++ [10]).
+  do x <- vruns_loop_c (length (vl_runs l)) 0 (vl_runs l);
+  Ok ((match vl_voice l with [] => [] | v => [60;118;32] ++ voice_esc v ++ [62] end) ++ x ++ [10]).
 Fixpoint vlines_bytes_c (ls : list vline) : res str :=
   match ls with
   | [] => Ok []
@@ -312,13 +368,13 @@ Definition write_vtt_c (d : vdoc) (style_order region_order : list str) : res st
     (* s.Metadata != nil && s.Metadata.WebVTTTimestampMap != nil *)
     do ts <- (if is_some (vd_tsmap d) then do m <- deref (vd_tsmap d) 483; Ok ([10] ++ tsmap_string m) else Ok []);
     do styles <- styles_c d (ssort style_order);
-    let rids := ssort (map (fun k => match aget k (vd_regions d) with Some rg => rg_id rg | None => k end) region_order) in
-    do regs <- regions_bytes_c d rids;
+    (* the keys of s.Regions with a non-nil value, sorted; the value is taken under the key (webvtt.go:511-525) *)
+    do regs <- regions_bytes_c d (ssort region_order);
     do items <- vitems_bytes_c 0 (vd_items d);
     let c := p_webvtt ++ ts ++ [10;10] ++
              (match styles with [] => [] | _ => p_style ++ [10] ++ join [10] styles ++ [10;10] end) ++
-             regs ++ (match vd_regions d with [] => [] | _ => [10] end) ++ items in
-    slice_to c (length c - 1) 642.
+             regs ++ (match region_order with [] => [] | _ => [10] end) ++ items in
+    slice_to_pred c 642.
 
 (* Subtitles.Items is a []*Item whose elements may be nil: WriteToWebVTT starts with s.Items = nonNilItems(s.Items)
    (webvtt.go:472), then proceeds as above on the remaining items; [d] carries the other parts of the value *)
